@@ -6,7 +6,8 @@ PROPERTY = "C14"
 
 def tasks(tier):
     return contract_tasks("contracts.shutdown", "C14", tier=tier) + contract_tasks("contracts.run_prelude", "C14", tier=tier) \
-        + contract_tasks("contracts.sim_process", "C14", tier=tier, names=["SimProcess"])
+        + contract_tasks("contracts.sim_process", "C14", tier=tier, names=["SimProcess"]) \
+        + other_tasks("contracts.faults_bounded", "C14", "bounded")
 
 
 TRUSTED_BASE = TRUSTED_CORE
@@ -29,7 +30,10 @@ LEVEL_TEXT = ("Control-flow contracts on the real World.run (shutdown exactly on
               "even when earlier stop()s fail, leftover tasks cancelled and awaited, loop stopped/drained/closed, first error re-raised; loop "
               "invariants over an arbitrary number of simulators / tasks), SimRunner.stop, Adapter.stop, LocalProxy.stop, RemoteProxy.stop (order "
               "of send/close/await), scheduler.run (errors of setup_done and of the processes reach the caller through gather) and sim_process "
-              "(a lost connection becomes a SimulationError naming the simulator; no other exception site reachable).")
+              "(a lost connection becomes a SimulationError naming the simulator; no other exception site reachable)."
+              " End to end (BOUNDED fault enumeration, not a proof): the real World.run with in-process simulators and one injected fault per run -- "
+              "every simulator x setup_done / k-th step / k-th get_data x (raises | connection reset) over 4 (6) scenarios: run() ends with an error, "
+              "every other simulator is finalized exactly once, the loop is closed, nothing is left pending.")
 DESIGN_REF = "DESIGN.md section 8 (C14)"
 LEVEL_NOTE = ("Proved for the control flow of the listed functions under assumed contracts of asyncio / the channel / user simulators; process "
               "and socket clean-up at OS level and promptness are not covered (coverage.not_covered). Two genuine defects found and fixed: "
